@@ -144,6 +144,8 @@ pub proof fn lemma_oct3(v: int)
     assert(oct_val(t[0]) == v / 64 && oct_val(t[1]) == (v / 8) % 8 && oct_val(t[2]) == v % 8);
     assert((v / 64) * 64 + ((v / 8) % 8) * 8 + v % 8 == v);
 }
+#[verifier::spinoff_prover]   // own solver instance: the proof is long and must not depend on what else is in the file
+#[verifier::rlimit(100)]
 pub proof fn lemma_ansi_scan(s: Seq<char>, flag: spec_fn(char) -> bool, base: int)
     requires ansi_flag_ok(flag), forall|i: int| 0 <= i < s.len() ==> s[i] != '\0',
     ensures ansi_scan(flat_l(s, ansi_piece(flag), base) + seq!['\'']) == Some((s, Seq::<char>::empty()))
